@@ -385,8 +385,10 @@ func (l *Linter) LintFiles(filepaths []string, project *Project) ([]*Error, erro
 	}
 
 	if err := eg.Wait(); err != nil {
+		verifPoint("lint.return.error", "files")
 		return nil, err
 	}
+	verifPoint("lint.egwait.done", "files")
 
 	// Ensure that all processes finish. `proc.wait()` must be called after `eg.Wait()`.
 	// Calling `WaitGroup.Add` after `WaitGroup.Wait` can cause a race condition (specifically when
@@ -424,6 +426,7 @@ func (l *Linter) LintFiles(filepaths []string, project *Project) ([]*Error, erro
 
 	l.log("Found", total, "errors in", n, "files")
 
+	verifPoint("lint.return", "files")
 	return all, nil
 }
 
@@ -455,6 +458,7 @@ func (l *Linter) LintFile(path string, project *Project) ([]*Error, error) {
 	localReusableWorkflows := NewLocalReusableWorkflowCache(project, l.cwd, dbg)
 	errs, err := l.check(path, src, project, proc, localActions, localReusableWorkflows)
 	proc.wait()
+	verifPoint("lint.return", "file")
 	if err != nil {
 		return nil, err
 	}
@@ -498,6 +502,7 @@ func (l *Linter) Lint(path string, content []byte, project *Project) ([]*Error, 
 	localReusableWorkflows := NewLocalReusableWorkflowCache(project, l.cwd, dbg)
 	errs, err := l.check(path, content, project, proc, localActions, localReusableWorkflows)
 	proc.wait()
+	verifPoint("lint.return", "content")
 	if err != nil {
 		return nil, err
 	}
@@ -519,6 +524,8 @@ func (l *Linter) check(
 ) ([]*Error, error) {
 	// Note: This method is called to check multiple files in parallel.
 	// It must be thread safe assuming fields of Linter are not modified while running.
+	verifPoint("check.begin", path)
+	defer verifPoint("check.end", path)
 
 	var start time.Time
 	if l.logLevel >= LogLevelVerbose {
